@@ -368,6 +368,6 @@ PLAN["C01"]["rule"] += ("; TestC01Sparse: volumes of 1-8 GiB (sparse files, spar
 
 PLAN["C06"]["needs_jiva"] = True
 PLAN["C06"]["quick"]["wall"] = 150
-PLAN["C06"]["quick"]["tests"].append({"run": "TestC06Cleaner", "shards": 6, "checks": 1, "timeout": 110, "shrink": "1s", "env": {"VERIF_NOSHRINK": 1}})
+PLAN["C06"]["quick"]["tests"].append({"run": "TestC06Cleaner", "shards": 8, "checks": 1, "timeout": 110, "shrink": "1s", "env": {"VERIF_NOSHRINK": 1}})
 PLAN["C06"]["thorough"]["tests"].append({"run": "TestC06Cleaner", "shards": 4, "checks": 10, "timeout": 860, "shrink": "1s", "env": {"VERIF_NOSHRINK": 1}})
 PLAN["C06"]["rule"] += "; TestC06Cleaner: the product's cleaner loop (see C11) with and without working sync agents - every retained user snapshot keeps its image"
